@@ -145,24 +145,45 @@ fn gen_pair(src: &mut Src) -> Pair {
             let npost = src.pick(3);
             let pre: Vec<String> = (0..npre).map(|i| format!("p{i} {}", leaf(src))).collect();
             let post: Vec<String> = (0..npost).map(|i| format!("q{i} {}", leaf(src))).collect();
+            // the referencing type may have extension additions of its own
+            let nadd = if src.chance(35) { 1 + src.pick(2) } else { 0 };
+            let adds: Vec<String> = (0..nadd).map(|i| format!("e{i} {}", leaf(src))).collect();
             let mut sug = pre.clone();
             sug.push(format!("COMPONENTS OF {base}"));
             sug.extend(post.clone());
             let mut exp = pre.clone();
             exp.extend(base_comps.clone());
             exp.extend(post.clone());
-            // known wrong expansion: the referenced components appended at the end
+            // known wrong expansion: the referenced components appended at the end (after the
+            // referencing type's own additions, which thereby become root components, the marker
+            // moving to the very end)
             let mut appended = pre.clone();
             appended.extend(post.clone());
+            appended.extend(adds.clone());
             appended.extend(base_comps.clone());
-            let wrong = vec![("F-compof".to_string(), vec![format!("{TARGET} ::= SEQUENCE {{ {} }}", appended.join(", "))])];
+            let mut wrong = vec![];
+            if nadd > 0 {
+                sug.push("...".into());
+                sug.extend(adds.clone());
+                exp.push("...".into());
+                exp.extend(adds.clone());
+                // the marker index is shifted by the number of appended components: depending on
+                // the counts it lands between the appended components or behind them
+                for k in 0..=appended.len() {
+                    let mut h = appended.clone();
+                    h.insert(k, "...".into());
+                    wrong.push(("F-compof".to_string(), vec![format!("{TARGET} ::= SEQUENCE {{ {} }}", h.join(", "))]));
+                }
+            } else {
+                wrong.push(("F-compof".to_string(), vec![format!("{TARGET} ::= SEQUENCE {{ {} }}", appended.join(", "))]));
+            }
             Pair {
-                kind: format!("components-of pre={npre} post={npost} base_ext={base_ext}"),
+                kind: format!("components-of pre={npre} post={npost} base_ext={base_ext} own_additions={nadd}"),
                 sugared: arrange(src, vec![base_def], format!("{TARGET} ::= SEQUENCE {{ {} }}", sug.join(", "))),
                 expanded: vec![format!("{TARGET} ::= SEQUENCE {{ {} }}", exp.join(", "))],
                 wrong,
                 header,
-                nontrivial: npost > 0 || base_ext,
+                nontrivial: npost > 0 || base_ext || nadd > 0,
                 // (COMPONENTS OF in last position expands correctly)
             }
         }
